@@ -779,6 +779,8 @@ pub fn check(a: &CheckArgs) -> i32 {
             "files_per_tree": st.files_per_tree.iter().map(|(k, v)| (k.to_string(), *v)).collect::<BTreeMap<_, _>>(),
             "operations_per_case": st.ops_per_case.iter().map(|(k, v)| (k.to_string(), *v)).collect::<BTreeMap<_, _>>(),
             "max_simulated_threads": st.max_tasks,
+            "max_scheduler_steps_in_one_invocation": st.max_steps,
+            "scheduler_step_budget_per_invocation": format!("{} adversarial + max({}, {} per source file) fair", crate::sched::N_ADV, crate::sched::N_FAIR, crate::sched::FAIR_PER_FILE),
             "determinism_selftest": {"runs_re_executed": selftest_done, "event_log_mismatches": selftest_mismatch},
             "violating_runs_before_triage": sh.total_violating_runs,
             "raw_signatures": sh.found.iter().map(|(k, f)| (k.clone(), f.count)).collect::<BTreeMap<_, _>>(),
